@@ -188,15 +188,25 @@ proof fn lemma_link(ts: Seq<TypeNode>, ts2: Seq<TypeNode>, h: Seq<nat>, a: usize
     }
 }
 
-/// all type ids mentioned by a type are nodes of the graph (only the components the functions
-/// under contract follow: tuple members, list element, function signature)
+/// all type ids mentioned by a type are nodes of the graph
+spec fn fields_in_range(fs: BTreeMap<String, (Span, TyID)>, n: int) -> bool {
+    forall|k: String| #[trigger] fs@.dom().contains(k) ==> (fs@[k].1.0 as int) < n
+}
 spec fn ids_in_range(t: Type, n: int) -> bool {
     match t {
         Type::Tuple(xs) => forall|k: int| 0 <= k < xs.len() ==> (#[trigger] xs[k]).0 < n,
         Type::List(x) => x.0 < n,
         Type::Function(xs, r, _) => r.0 < n && forall|k: int| 0 <= k < xs.len() ==> (#[trigger] xs[k]).0 < n,
+        Type::Blob(_, _, fs, xs) => fields_in_range(fs, n) && forall|k: int| 0 <= k < xs.len() ==> (#[trigger] xs[k]).0 < n,
+        Type::ExternBlob(_, _, fs, xs, _) => fields_in_range(fs, n) && forall|k: int| 0 <= k < xs.len() ==> (#[trigger] xs[k]).0 < n,
+        Type::Enum(_, _, fs, xs) => fields_in_range(fs, n) && forall|k: int| 0 <= k < xs.len() ==> (#[trigger] xs[k]).0 < n,
         _ => true,
     }
+}
+proof fn lemma_ids_mono(t: Type, n: int, m: int)
+    requires ids_in_range(t, n), n <= m,
+    ensures ids_in_range(t, m),
+{
 }
 spec fn ids_closed(ts: Seq<TypeNode>) -> bool {
     forall|i: int| 0 <= i < ts.len() ==> ids_in_range((#[trigger] ts[i]).ty, ts.len() as int)
@@ -540,6 +550,61 @@ spec fn pure_ok(s: Statement, in_pure: bool) -> bool decreases s {
 }
 
 
+// D-msg: the `Help` trait (typechecker.rs:23-57) only decorates an error with a message; its
+// shadow keeps Ok/Err and the Ok value.
+trait Help: Sized {
+    spec fn h_is_ok(&self) -> bool;
+    spec fn h_same(&self, other: &Self) -> bool;
+    fn help(self, typechecker: &TypeChecker, span: Span, message: String) -> (r: Self)
+        ensures r.h_is_ok() == self.h_is_ok(), self.h_is_ok() ==> r.h_same(&self);
+    fn help_no_span(self, message: String) -> (r: Self)
+        ensures r.h_is_ok() == self.h_is_ok(), self.h_is_ok() ==> r.h_same(&self);
+}
+impl<T> Help for TypeResult<T> {
+    spec fn h_is_ok(&self) -> bool { self is Ok }
+    spec fn h_same(&self, other: &Self) -> bool { *self == *other }
+    #[verifier::external_body]
+    fn help(self, typechecker: &TypeChecker, span: Span, message: String) -> (r: Self) { unimplemented!() }
+    #[verifier::external_body]
+    fn help_no_span(self, message: String) -> (r: Self) { unimplemented!() }
+}
+#[verifier::external_body]
+fn opaque_string() -> String { unimplemented!() }
+#[verifier::external_body]
+fn opaque_usize() -> usize { unimplemented!() }
+macro_rules! format { ($($t:tt)*) => { opaque_string() }; }
+/// assumption A-derive-ord-tyid: derive(Ord) on TyID / tuples of TyID is a lawful total order
+#[verifier::external_body]
+proof fn axiom_tyid_pair_key_order() ensures vstd::std_specs::btree::key_obeys_cmp_spec::<(TyID, TyID)>() {}
+#[verifier::external_body]
+proof fn axiom_string_key_order() ensures vstd::std_specs::btree::key_obeys_cmp_spec::<String>() {}
+
+/// two known types that can never be unified: different head constructors, tuples of different
+/// length, functions of different arity or with clashing purity, different extern blobs
+spec fn head_clash(ta: Type, tb: Type) -> bool {
+    !(ta is Unknown) && !(tb is Unknown) && match (ta, tb) {
+        (Type::Ty, Type::Ty) | (Type::Void, Type::Void) | (Type::Nil, Type::Nil) | (Type::Int, Type::Int)
+        | (Type::Float, Type::Float) | (Type::Bool, Type::Bool) | (Type::Str, Type::Str) => false,
+        (Type::List(_), Type::List(_)) => false,
+        (Type::Tuple(x), Type::Tuple(y)) => x.len() != y.len(),
+        (Type::Function(xa, _, pa), Type::Function(xb, _, pb)) =>
+            xa.len() != xb.len() || (pa is Pure && pb is Impure) || (pa is Impure && pb is Pure),
+        (Type::Blob(..), Type::Blob(..)) => false,
+        (Type::ExternBlob(_, _, _, _, ia), Type::ExternBlob(_, _, _, _, ib)) => ia != ib,
+        (Type::Enum(..), Type::Enum(..)) => false,
+        _ => true,
+    }
+}
+
+/// assumption A-size: the class-size counters of two different roots never sum to more than
+/// usize::MAX (they are bounded by the number of nodes; machine arithmetic is NOT treated as
+/// mathematical - this is the one place where the bound is assumed instead of proved)
+#[verifier::external_body]
+proof fn axiom_sizes_fit(ts: Seq<TypeNode>, i: int, j: int)
+    requires wf_forest(ts), 0 <= i < ts.len(), 0 <= j < ts.len(), rep0(ts, i) != rep0(ts, j),
+    ensures ts[rep0(ts, i)].size + ts[rep0(ts, j)].size <= usize::MAX
+{}
+
 impl TypeCtx {
 //@ fn sylt-compiler/src/typechecker.rs new
 //@   in TypeCtx
@@ -728,9 +793,10 @@ impl TypeChecker {
             final(self).variables == old(self).variables, //# C02 find_type.frame_variables
             r == ty_of(old(self).types@, a), //# C02 find_type.returns_class_type
             r == tview(old(self).types@)[a.0 as int],
+            old(self).inv() ==> ids_in_range(r, old(self).types@.len() as int), //# C07 find_type.result_ids_in_range
 //@   endspec
 //@   ghost entry
-        proof { lemma_rep0_props(self.types@, a.0 as int); }
+        proof { lemma_rep0_props(self.types@, a.0 as int); if self.inv() { lemma_view_members(self.types@, a); } }
 //@   endghost
 //@ end
 
@@ -1056,7 +1122,8 @@ impl TypeChecker {
         requires
             old(self).inv(), //# C02 union.pre.inv
             old(self).valid(a), old(self).valid(b), //# C07 union.pre.ids_in_range
-            old(self).types@[rep0(old(self).types@, a.0 as int)].size + old(self).types@[rep0(old(self).types@, b.0 as int)].size <= usize::MAX, //# C07 union.pre.size_no_overflow
+            rep0(old(self).types@, a.0 as int) != rep0(old(self).types@, b.0 as int) ==>
+                old(self).types@[rep0(old(self).types@, a.0 as int)].size + old(self).types@[rep0(old(self).types@, b.0 as int)].size <= usize::MAX, //# C07 union.pre.size_no_overflow
         ensures
             final(self).inv(), //# C02 union.keeps_invariant
             final(self).types.len() == old(self).types.len(),
@@ -1176,14 +1243,159 @@ impl TypeChecker {
         ensures final(self).inv2(), final(self).grows(old(self)),
 //@   endspec
 //@ end
+//@ fn sylt-compiler/src/typechecker.rs find_node_mut
+//@   in TypeChecker
+//@   props C02 C07
+//@   ret r
+//@   spec
+        requires
+            wf_forest(old(self).types@),
+            (a.0 as int) < old(self).types.len(), //# C07 find_node_mut.pre.id_in_range
+        ensures
+            final(self).types@.len() == old(self).types@.len(),
+            r.parent is None && r.ty == ty_of(old(self).types@, a) && r.constraints == old(self).types@[rep0(old(self).types@, a.0 as int)].constraints
+                && r.size == old(self).types@[rep0(old(self).types@, a.0 as int)].size, //# C02 find_node_mut.hands_out_the_root_node
+            final(self).types@[rep0(old(self).types@, a.0 as int)] == *final(r), //# C02 find_node_mut.writes_go_to_the_root_node
+            forall|i: int| 0 <= i < old(self).types@.len() && i != rep0(old(self).types@, a.0 as int) ==>
+                (#[trigger] final(self).types@[i]).ty == old(self).types@[i].ty && final(self).types@[i].size == old(self).types@[i].size
+                && final(self).types@[i].constraints == old(self).types@[i].constraints, //# C02 find_node_mut.other_nodes_untouched
+            final(r).parent is None ==> wf_forest(final(self).types@)
+                && forall|i: int| 0 <= i < old(self).types@.len() ==> #[trigger] rep0(final(self).types@, i) == rep0(old(self).types@, i), //# C02 find_node_mut.partition_unchanged_if_parent_untouched
+            final(self).variables == old(self).variables,
+//@   endspec
+//@   ghost entry
+        let ghost ts0 = self.types@;
+        proof { lemma_rep0_props(ts0, a.0 as int); }
+//@   endghost
+//@   ghost before
+//@| &mut self.types[ta]
+        proof {
+            let mid = self.types@;
+            assert(same_graph(ts0, mid));
+            lemma_rep0_props(mid, ta as int);
+            assert forall|n: TypeNode| n.parent is None implies wf_forest(#[trigger] mid.update(ta as int, n))
+                && forall|i: int| 0 <= i < ts0.len() ==> #[trigger] rep0(mid.update(ta as int, n), i) == rep0(ts0, i) by {
+                let upd = mid.update(ta as int, n);
+                lemma_parents_same(mid, upd);
+                assert forall|i: int| 0 <= i < ts0.len() implies #[trigger] rep0(upd, i) == rep0(ts0, i) by {
+                    assert(rep0(upd, i) == rep0(mid, i));
+                    assert(rep0(mid, i) == rep0(ts0, i));
+                }
+            }
+        }
+//@   endghost
+//@ end
+
+//@ fn sylt-compiler/src/typechecker.rs sub_unify
+//@   in TypeChecker
+//@   props C02 C03 C04 C05 C07
+//@   attr #[verifier::exec_allows_no_decreases_clause]
+//@   attr #[verifier::loop_isolation(false)]
+//@   ret r
+//@   rewrite rule:R-enum
+//@- for (i, (a, b)) in a.iter().zip(b.iter()).enumerate() {
+//@+ for (a, b) in a.iter().zip(b.iter()) { let i: usize = opaque_usize();
+//@   why Verus has no specification for Iterator::enumerate; the index is only used inside format!(..) message arguments (dropped by D-msg), so an opaque index is a sound replacement
+//@   endrewrite
+//@   rewrite rule:R-enum count=2
+//@- for (i, (a, b)) in a_args.iter().zip(b_args.iter()).enumerate() {
+//@+ for (a, b) in a_args.iter().zip(b_args.iter()) { let i: usize = opaque_usize();
+//@   why as above
+//@   endrewrite
+//@   rewrite guard
+//@- (
+//@-     Type::ExternBlob(_, _, _, a_args, a_id),
+//@-     Type::ExternBlob(_, _, _, b_args, b_id),
+//@- ) if a_id == b_id => {
+//@   endrewrite
+//@   spec
+        requires old(self).inv2(), old(self).valid(a), old(self).valid(b),
+            vstd::std_specs::btree::key_obeys_cmp_spec::<(TyID, TyID)>(),
+        ensures final(self).inv2(), final(self).grows(old(self)), r is Ok ==> final(self).valid(r->Ok_0),
+            head_clash(ty_of(old(self).types@, a), ty_of(old(self).types@, b))
+                && rep0(old(self).types@, a.0 as int) != rep0(old(self).types@, b.0 as int)
+                && !old(seen)@.contains((TyID(rep0(old(self).types@, a.0 as int) as usize), TyID(rep0(old(self).types@, b.0 as int) as usize)))
+                ==> r is Err, //# C03,C04,C05 sub_unify.clashing_types_rejected
+//@   endspec
+//@   ghost entry
+        let ghost ts0 = self.types@; let ghost a0 = a; let ghost b0 = b;
+        proof { axiom_string_key_order(); lemma_rep0_props(ts0, a0.0 as int); lemma_rep0_props(ts0, b0.0 as int); }
+//@   endghost
+//@   ghost before-loop 1
+                let ghost n1 = self.types@.len(); let ghost xs1 = a@; let ghost ys1 = b@;
+//@   endghost
+//@   loop 1 binder it
+                    invariant
+                        self.inv2(), self.grows(old(self)), self.types@.len() >= n1,
+                        vstd::std_specs::btree::key_obeys_cmp_spec::<(TyID, TyID)>(),
+                        xs1.len() == ys1.len(), it.seq().len() == xs1.len(),
+                        forall|i: int| 0 <= i < xs1.len() ==> *(#[trigger] it.seq()[i]).0 == xs1[i] && *it.seq()[i].1 == ys1[i],
+                        forall|k: int| 0 <= k < xs1.len() ==> (#[trigger] xs1[k]).0 < n1 && (#[trigger] ys1[k]).0 < n1,
+//@   endloop
+//@   ghost before-loop 2
+                let ghost n2 = self.types@.len(); let ghost xs2 = a_args@; let ghost ys2 = b_args@;
+//@   endghost
+//@   loop 2 binder it
+                    invariant
+                        self.inv2(), self.grows(old(self)), self.types@.len() >= n2,
+                        vstd::std_specs::btree::key_obeys_cmp_spec::<(TyID, TyID)>(),
+                        xs2.len() == ys2.len(), it.seq().len() == xs2.len(),
+                        forall|i: int| 0 <= i < xs2.len() ==> *(#[trigger] it.seq()[i]).0 == xs2[i] && *it.seq()[i].1 == ys2[i],
+                        forall|k: int| 0 <= k < xs2.len() ==> (#[trigger] xs2[k]).0 < n2 && (#[trigger] ys2[k]).0 < n2,
+//@   endloop
+//@   ghost before-loop 4
+                let ghost n4 = self.types@.len();
+//@   endghost
+//@   loop 4 binder it
+                    invariant
+                        self.inv2(), self.grows(old(self)), self.types@.len() >= n4,
+                        vstd::std_specs::btree::key_obeys_cmp_spec::<(TyID, TyID)>(),
+                        vstd::std_specs::btree::key_obeys_cmp_spec::<String>(),
+                        fields_in_range(a_fields, n4 as int), fields_in_range(b_fields, n4 as int),
+                        forall|j: int| 0 <= j < it.seq().len() ==> b_fields@.contains_pair(*(#[trigger] it.seq()[j]).0, *it.seq()[j].1),
+//@   endloop
+//@   ghost before-loop 5
+                let ghost n5 = self.types@.len(); let ghost xs5 = a_args@; let ghost ys5 = b_args@;
+//@   endghost
+//@   loop 5 binder it
+                    invariant
+                        self.inv2(), self.grows(old(self)), self.types@.len() >= n5,
+                        vstd::std_specs::btree::key_obeys_cmp_spec::<(TyID, TyID)>(),
+                        it.seq().len() <= xs5.len(), it.seq().len() <= ys5.len(),
+                        forall|i: int| 0 <= i < it.seq().len() ==> *(#[trigger] it.seq()[i]).0 == xs5[i] && *it.seq()[i].1 == ys5[i],
+                        forall|k: int| 0 <= k < xs5.len() ==> (#[trigger] xs5[k]).0 < n5,
+                        forall|k: int| 0 <= k < ys5.len() ==> (#[trigger] ys5[k]).0 < n5,
+//@   endloop
+//@   ghost before-loop 7
+                let ghost n7 = self.types@.len();
+//@   endghost
+//@   loop 7 binder it
+                    invariant
+                        self.inv2(), self.grows(old(self)), self.types@.len() >= n7,
+                        vstd::std_specs::btree::key_obeys_cmp_spec::<(TyID, TyID)>(),
+                        vstd::std_specs::btree::key_obeys_cmp_spec::<String>(),
+                        fields_in_range(a_variants, n7 as int), fields_in_range(b_variants, n7 as int),
+                        forall|j: int| 0 <= j < it.seq().len() ==> b_variants@.contains_pair(*(#[trigger] it.seq()[j]).0, *it.seq()[j].1),
+//@   endloop
+//@   ghost before
+//@| self.union(a, b);
+        proof { if rep0(self.types@, a.0 as int) != rep0(self.types@, b.0 as int) { axiom_sizes_fit(self.types@, a.0 as int, b.0 as int); } }
+//@   endghost
+//@ end
+
 //@ fn sylt-compiler/src/typechecker.rs unify
 //@   in TypeChecker
-//@   mode assumed
+//@   props C02 C03 C04 C05 C07
 //@   ret r
 //@   spec
         requires old(self).inv2(), old(self).valid(a), old(self).valid(b),
         ensures final(self).inv2(), final(self).grows(old(self)), r is Ok ==> final(self).valid(r->Ok_0),
+            head_clash(ty_of(old(self).types@, a), ty_of(old(self).types@, b))
+                && rep0(old(self).types@, a.0 as int) != rep0(old(self).types@, b.0 as int) ==> r is Err, //# C03,C04,C05 unify.clashing_types_rejected
 //@   endspec
+//@   ghost entry
+        proof { axiom_tyid_pair_key_order(); }
+//@   endghost
 //@ end
 
 //@ fn sylt-compiler/src/typechecker.rs unify_option
